@@ -223,6 +223,33 @@ async def nested_three_levels():
     return None
 
 
+async def mirrored_directories():
+    """two separate shared directories with the same relative content and the same modification times (a copytree backup): every file is a
+    file of its own and is returned by a matching query"""
+    with tempfile.TemporaryDirectory() as tmp:
+        tmp = os.path.realpath(tmp)
+        for top in ('music', 'backup'):
+            for d, f in (('', 'a song.mp3'), ('rock', 'b song.mp3')):
+                os.makedirs(os.path.join(tmp, top, d), exist_ok=True)
+                p = os.path.join(tmp, top, d, f)
+                open(p, 'w').close()
+                os.utime(p, (1000, 1000))
+        client = make_client(tmp)
+        sm = client.shares
+        for top in ('music', 'backup'):
+            sm.add_shared_directory(os.path.join(tmp, top))
+        await sm.scan()
+        why = check_index(sm, 'two mirrored shared directories')
+        if why:
+            return why
+        visible, locked = sm.query('song')
+        paths = sorted(i.get_absolute_path() for i in visible + locked)
+        want = sorted(disk_files(tmp))
+        if paths != want:
+            return f'two mirrored shared directories: query "song" returned {len(paths)} of {len(want)} files: {[os.path.relpath(p, tmp) for p in paths]}'
+    return None
+
+
 def check_index_subset(sm, label):
     """without a rescan: no file indexed twice, every item under the innermost shared directory containing it"""
     dirs = list(sm.shared_directories)
@@ -244,6 +271,9 @@ async def main():
     why = await nested_three_levels()
     if why:
         return True, why, {'scenario': 'three nested shared directories'}
+    why = await mirrored_directories()
+    if why:
+        return True, why, {'scenario': 'two mirrored shared directories'}
     rnd = random.Random(SEED)
     for rno in range(ROUNDS):
         with tempfile.TemporaryDirectory() as tmp:
